@@ -521,7 +521,13 @@ func constructSourceComment(module, file, leadingString string, includeSourceInf
 		return ""
 	}
 
-	return fmt.Sprintf(" #%s module: %s, file: %s", leadingString, module, file)
+	// a comment ends at a line break: a name that contains one is written with blanks in their place,
+	// so that the rest of it cannot be read as DSL
+	withoutLineBreaks := func(name string) string {
+		return strings.ReplaceAll(strings.ReplaceAll(name, "\n", " "), "\r", " ")
+	}
+
+	return fmt.Sprintf(" #%s module: %s, file: %s", leadingString, withoutLineBreaks(module), withoutLineBreaks(file))
 }
 
 type transformOptions struct {
